@@ -25,7 +25,7 @@ RULE = (
     "pair of distinct objects; distinct = distinct (family fingerprint, i, j)"
 )
 ASSUMPTIONS = ["origins are produced by the library's constructors / merge_origins", "content equality itself is C01's subject: frozenset order and separator re-splits are not generated here"]
-MUST_SEE = ["permissive_non_node_comparisons", "one_origin_diff_depth_ge2", "equal_pairs_distinct_objects", "triples", "confusable_origin_pairs", "serial_families", "non_node_comparisons", "hash_rechecks", "shared_subtrees", "shared_vs_unshared_families"]
+MUST_SEE = ["rejected_replace_then_hash", "permissive_non_node_comparisons", "one_origin_diff_depth_ge2", "equal_pairs_distinct_objects", "triples", "confusable_origin_pairs", "serial_families", "non_node_comparisons", "hash_rechecks", "shared_subtrees", "shared_vs_unshared_families"]
 CONFIG = {
     "quick": {"shards": 16, "families": 500, "watchdog_s": 300},
     "thorough": {"shards": 32, "families": 500, "watchdog_s": 3000},
@@ -221,6 +221,20 @@ def run_shard(ctx):
         ctx.evaluations += 1
         if (u == w) is not False or (u != w) is not True:
             ctx.violation("eq-other-class", "instances of two different classes with the same name (class redefined) compare equal", {"class": f"{P}Redef2"})
+    # a replace() that is rejected after the rejected copy had been registered (the class validates after the base):
+    # the receiver's hash, and so its membership in sets and dicts, stays what it was
+    for k in range(6):
+        pk = U.cls[f"{P}Picky"](v=100 + k, origin=O.build_origin(("code", k % 3, 1, 3)) if k % 2 else O.build_origin(("no",)))
+        twin = U.cls[f"{P}Picky"](v=100 + k, origin=pk.origin) if k >= 3 else None  # with / without a registered twin
+        h0, bag = hash(pk), {pk}
+        hashes.append((pk, h0))
+        try:
+            pk.replace(note="boom")
+        except ValueError:
+            ctx.count("rejected_replace_then_hash")
+        ctx.evaluations += 1
+        if hash(pk) != h0 or pk not in bag or (twin is not None and not (twin == pk)):
+            ctx.violation("hash-changed", "hash(node) changed after a replace() on it was rejected", {"class": f"{P}Picky", "with_registered_twin": twin is not None})
     for nd, h in hashes:
         ctx.count("hash_rechecks")
         if hash(nd) != h:
